@@ -214,7 +214,9 @@ fn gen_for_raw(prop: &str, seed: u64) -> Scenario {
     #[cfg(feature = "sim")]
     if prop == "C15" || (matches!(prop, "C01" | "C02" | "C03" | "C04" | "C05" | "C11" | "C12" | "C13") && rng.chance(1, 7)) {
         crate::afamily::asyncify(&mut sc, &mut rng);
-        if prop == "C15" {
+        // (not in the Miri tier: in pass-through mode nothing stands between a dying job, the
+        // "Sender dropped" panic of the caller's next operation and the end of the process)
+        if prop == "C15" && !crate::driver::MIRI_PLANS.load(Ordering::Relaxed) {
             let inf = infos(&sc.regs);
             let ord: Vec<usize> = inf.iter().filter(|i| i.parent.is_none() && i.kind == Kind::Sys).map(|i| i.sid).collect();
             let ndisp = sc.aops.iter().filter(|o| **o == AOp::Dispatch).count();
